@@ -26,19 +26,27 @@ pub struct Case {
 }
 
 fn numeral(rng: &mut Rng) -> String {
+    numeral_after(rng, false)
+}
+
+/// `after_identifier`: the numeral will directly follow an identifier. Exactly that position never
+/// gets a zero-valued fraction (`.0`, `12.00`): an identifier directly followed by one is the recorded
+/// known finding of this property, pinned by its own input in known_findings.json.
+fn numeral_after(rng: &mut Rng, after_identifier: bool) -> String {
     let mut n = numeral_raw(rng);
-    // never a zero-valued fraction (`.0`, `12.00`): an identifier directly followed by one is the
-    // recorded known finding of this property, pinned by its own input in known_findings.json
-    if let Some(i) = n.find('.') {
-        if n[i + 1..].chars().all(|c| c == '0') {
-            n.push('5');
+    if after_identifier {
+        if let Some(i) = n.find('.') {
+            if n[i + 1..].chars().all(|c| c == '0') {
+                n.push('5');
+            }
         }
     }
     n
 }
 
 fn numeral_raw(rng: &mut Rng) -> String {
-    match rng.below(10) {
+    match rng.below(11) {
+        10 => rng.pick(&[".0", "0.0", "10.0", ".00"]).to_string(),
         0 => ".5".into(),
         1 => "007".into(),
         2 => "1.".into(),
@@ -47,8 +55,7 @@ fn numeral_raw(rng: &mut Rng) -> String {
         5 => format!("{}", rng.below(1000)),
         6 => "12345678901234567890".into(),
         7 => "00.500".into(),
-        // (never `.0`: an identifier directly followed by a zero-valued fraction is a recorded known finding)
-        8 => format!("{}.{}", rng.below(100), 1 + rng.below(99)),
+        8 => format!("{}.{}", rng.below(100), rng.below(100)),
         _ => "3".into(),
     }
 }
@@ -88,13 +95,13 @@ fn data_stmt(rng: &mut Rng) -> String {
     s
 }
 
-fn token(rng: &mut Rng) -> String {
+fn token(rng: &mut Rng, after_identifier: bool) -> String {
     match rng.below(14) {
         0..=3 => rng.pick(KEYWORDS).to_string(),
         4..=6 => rng.pick(PUNCT).to_string(),
         7..=8 => rng.pick(IDENTS).to_string(),
         9 => rng.pick(&["SCORE", "TOTAL", "A$B", "XIF", "FNX", "N1", "B2$", "NOTE", "ORB", "ANDY"]).to_string(),
-        10 => numeral(rng),
+        10 => numeral_after(rng, after_identifier),
         11 => format!("\"{}\"", rng.pick(&["", "A", "hi there", "é", "a:b,c", "REM", "日本"])),
         12 => "(".into(),
         _ => ")".into(),
@@ -110,7 +117,10 @@ fn stress_line(rng: &mut Rng) -> String {
             let n = 1 + rng.usize(8);
             let mut out = String::new();
             for _ in 0..n {
-                out.push_str(&token(rng));
+                // does the text so far end in an identifier character (blanks are insignificant)?
+                let after_ident = out.trim_end().chars().last().map(|c| c.is_ascii_alphanumeric()).unwrap_or(false)
+                    && out.trim_end().chars().rev().take_while(|c| c.is_ascii_alphanumeric()).any(|c| c.is_ascii_alphabetic());
+                out.push_str(&token(rng, after_ident));
                 if rng.chance(1, 2) {
                     out.push_str(rng.pick(&[" ", "  ", "\t"]));
                 }
